@@ -85,6 +85,8 @@ type HistSys struct {
 	// which op kinds are in the alphabet
 	Ops      map[string]bool
 	PoolSize int
+	// Surge: deployment classes only: so many pods beyond replicas may exist at once (rolling update with maxSurge)
+	Surge int
 	// Prefix is applied after Init: BFS from a non-initial state.
 	Prefix     []Op
 	PrefixName string
@@ -131,8 +133,9 @@ func (h *HistSys) Enabled(w *world.World) []Op {
 	for i := 0; i < h.NPods; i++ {
 		p := w.Pods[h.pod(i).Key()]
 		if p == nil {
-			// (the pods of a deployment have no index: any pod name may be created while fewer pods than replicas are alive)
-			dpRoom := (h.Class.Kind == "dp" || h.Class.Kind == "dppool" || h.Class.Kind == "dppoolu") && live < rep
+			// (the pods of a deployment have no index: any pod name may be created while fewer pods than replicas, plus the surge of
+			// a rolling update where the system has one, are alive)
+			dpRoom := (h.Class.Kind == "dp" || h.Class.Kind == "dppool" || h.Class.Kind == "dppoolu") && live < rep+h.Surge
 			if h.Ops["create"] && rep >= 0 && (i < rep || dpRoom || h.Class.Kind == "bare" || h.Class.Kind == "barepfx") {
 				ops = append(ops, Op{Kind: "create", A: i})
 			}
